@@ -27,7 +27,6 @@ type MessageHandler interface {
 }
 
 func (sm *storedMessages) add(msg *IncMessage, epoch uint64) {
-	verifYield("add")
 	sm.lock.Lock()
 	defer sm.lock.Unlock()
 
@@ -73,6 +72,7 @@ type Box struct {
 	lock                        sync.RWMutex
 	pendingMessages             map[string]*storedMessages
 	startedSending              map[string]uint64
+	handOver                    map[string][]*IncMessage // started topics whose held messages are still being handed to the handler
 	totalInFlightTopicsBySender map[uint16]map[string]struct{}
 	//Config
 	MessageHandler
@@ -126,23 +126,9 @@ func (b *Box) HandleMessage(msg *IncMessage) {
 	}
 }
 
+// getOrCreateMessagesByTopic is called with the lock held
 func (b *Box) getOrCreateMessagesByTopic(topic []byte) *storedMessages {
-	b.initialize()
-
-	verifYield("lookup")
-	b.lock.RLock()
 	messages, exists := b.pendingMessages[string(topic)]
-	b.lock.RUnlock()
-
-	if exists {
-		return messages
-	}
-
-	verifYield("create")
-	b.lock.Lock()
-	defer b.lock.Unlock()
-
-	messages, exists = b.pendingMessages[string(topic)]
 	if !exists {
 		messages = &storedMessages{
 			messageCountPerSender: make(map[uint16]int),
@@ -158,24 +144,32 @@ func (b *Box) getOrCreateMessagesByTopic(topic []byte) *storedMessages {
 func (b *Box) storeOrForward(msg *IncMessage) {
 	b.initialize()
 
-	if b.hasStartedSending(msg.Topic) {
-		verifYield("forward")
-		b.MessageHandler.HandleMessage(msg)
+	// The decision and the store are a single critical section: a message is either held before the topic starts
+	// (and then handed over by the Send that starts it), or it sees the topic started.
+	b.lock.Lock()
+
+	if _, started := b.startedSending[string(msg.Topic)]; started {
+		// While the held messages of the topic are still being handed over, later arrivals queue up behind them
+		queue, handingOver := b.handOver[string(msg.Topic)]
+		if handingOver {
+			b.handOver[string(msg.Topic)] = append(queue, msg)
+		}
+		b.lock.Unlock()
+
+		if !handingOver {
+			verifYield("forward")
+			b.MessageHandler.HandleMessage(msg)
+		}
 		return
 	}
 
-	var tooManyTopicsFromSender bool
+	defer b.lock.Unlock()
 
-	verifYield("limit")
-	b.lock.RLock()
 	if activeTopicsFromSource, exists := b.totalInFlightTopicsBySender[msg.Source]; exists {
-		tooManyTopicsFromSender = len(activeTopicsFromSource) > b.MaxInFlightTopicsBySender
-	}
-	b.lock.RUnlock()
-
-	if tooManyTopicsFromSender {
-		b.Logger.Warnf("Received too many topics from %d (limit is %d)", msg.Source, b.MaxInFlightTopicsBySender)
-		return
+		if len(activeTopicsFromSource) > b.MaxInFlightTopicsBySender {
+			b.Logger.Warnf("Received too many topics from %d (limit is %d)", msg.Source, b.MaxInFlightTopicsBySender)
+			return
+		}
 	}
 
 	b.markTopicForSender(msg)
@@ -184,11 +178,8 @@ func (b *Box) storeOrForward(msg *IncMessage) {
 	messages.add(msg, atomic.LoadUint64(&b.currentGCEpochNum))
 }
 
+// markTopicForSender is called with the lock held
 func (b *Box) markTopicForSender(msg *IncMessage) {
-	verifYield("mark")
-	b.lock.Lock()
-	defer b.lock.Unlock()
-
 	if _, exists := b.totalInFlightTopicsBySender[msg.Source]; !exists {
 		b.totalInFlightTopicsBySender[msg.Source] = make(map[string]struct{})
 	}
@@ -199,21 +190,10 @@ func (b *Box) initialize() {
 	b.init.Do(func() {
 		b.pendingMessages = make(map[string]*storedMessages)
 		b.startedSending = make(map[string]uint64)
+		b.handOver = make(map[string][]*IncMessage)
 		b.totalInFlightTopicsBySender = make(map[uint16]map[string]struct{})
 		b.startClock()
 	})
-}
-
-func (b *Box) hasStartedSending(topic []byte) bool {
-	b.initialize()
-
-	verifYield("started")
-	b.lock.RLock()
-	defer b.lock.RUnlock()
-
-	_, exists := b.startedSending[string(topic)]
-
-	return exists
 }
 
 func (b *Box) maybeGC() {
@@ -286,28 +266,47 @@ func (b *Box) Send(msgType uint8, topic []byte, msg []byte, to ...UniversalID) {
 	verifYield("send")
 	b.lock.Lock()
 	b.startedSending[string(topic)] = atomic.LoadUint64(&b.currentGCEpochNum)
-	msgs := b.pendingMessages[string(topic)]
-	var messages []*IncMessage
-	if msgs != nil {
+	var handOver bool
+	if msgs := b.pendingMessages[string(topic)]; msgs != nil {
 		msgs.lock.RLock()
-		messages = msgs.messages
 		// The topic has started: its senders no longer have it in flight
 		for sender := range msgs.messageCountPerSender {
 			delete(b.totalInFlightTopicsBySender[sender], string(topic))
 		}
+		// The held messages are handed over below; if a hand-over of the topic is already running, it takes them along
+		queue, handingOver := b.handOver[string(topic)]
+		b.handOver[string(topic)] = append(queue, msgs.messages...)
+		handOver = !handingOver
 		msgs.lock.RUnlock()
 	}
-
-	defer func() {
-		for _, msg := range messages {
-			b.HandleMessage(msg)
-		}
-	}()
 
 	delete(b.pendingMessages, string(topic))
 
 	b.lock.Unlock()
 
+	if handOver {
+		defer b.handOverHeldMessages(string(topic))
+	}
+
 	verifYield("fwdsend")
 	b.ForwardSend(msgType, topic, msg, to...)
+}
+
+// handOverHeldMessages passes the messages that were held back for the topic to the handler, followed by
+// the messages that arrived in the meantime, in their arrival order.
+func (b *Box) handOverHeldMessages(topic string) {
+	for {
+		b.lock.Lock()
+		queue := b.handOver[topic]
+		if len(queue) == 0 {
+			delete(b.handOver, topic)
+			b.lock.Unlock()
+			return
+		}
+		msg := queue[0]
+		b.handOver[topic] = queue[1:]
+		b.lock.Unlock()
+
+		b.MessageHandler.HandleMessage(msg)
+	}
 }
